@@ -1,7 +1,20 @@
 (** Executable comparison used by the correspondence check of C17.
 
-    The model is evaluated with the toy primitives of Crypto/Snacl.v.  What is
-    compared with the real snacl / waddrmgr run:
+    The model is evaluated with the toy primitives of Crypto/Snacl.v, on the
+    definitions parameterised by the facts regenerated from snacl.go
+    ([snacl_facts]: decrypt_c, derive_key_c, new_secret_key_c, mgr_pw_check).
+
+    Projection (review (e)): the property says "fails with an error instead
+    of returning data", and no theorem of Properties/C17.v depends on WHICH
+    error; so every error of Decrypt / Manager.Decrypt is one class
+    (ErrMalformed, ErrDecryptFailed and anything else fold into 1), "scrypt
+    returned an error" and "scrypt panicked" are one class (no key returned),
+    and an Unmarshal error is one class.  Kept apart because theorems say so:
+    ok / ok-with-other-data / error, ErrLocked, ErrInvalidKeyType,
+    ErrInvalidPassword vs no-key-derived.  The key bytes left behind by a
+    FAILED DeriveKey are not compared either.
+
+    What is compared with the real snacl / waddrmgr run:
     - the parameter codec byte for byte (Marshal layout, Unmarshal result,
       accept / reject by length);
     - ciphertext length (24 + 16 + |plaintext|) and, for EVERY single-bit flip
@@ -9,8 +22,14 @@
       Decrypt (ok / malformed / decrypt-failed) at the same position of the
       model's ciphertext (the toy box is at least as long as the real one);
     - DeriveKey outcome classes for the creating passphrase, near-miss
-      passphrases and every single-bit flip of the 88 marshalled bytes.
-    Ciphertext, key and digest bytes themselves are not compared. *)
+      passphrases and every single-bit flip of the 88 marshalled bytes;
+    - waddrmgr's passphrase checks (Open, Unlock locked / unlocked,
+      ChangePassphrase public / private): accepted / wrong passphrase / other
+      for the right passphrase and every near miss.
+    Ciphertext, key and digest bytes themselves are not compared.  The
+    model's hash is not SHA-256: for a passphrase longer than the HMAC block
+    lib/c17.py renders the near miss "SHA-256 of the passphrase" as
+    [corr_hash] of it (the model's key block of that passphrase). *)
 From Verif Require Import Base.Prelude Crypto.Snacl.
 Local Open Scope N_scope.
 
@@ -20,19 +39,17 @@ Local Open Scope N_scope.
 Definition cls_decrypt (pt : bytes) (r : result bytes) : N :=
   match r with
   | Ok m => if bytes_eqb m pt then 0 else 7
-  | Err ErrMalformed => 1
-  | Err ErrDecryptFailed => 2
-  | Err _ => 3
+  | Err _ => 1
   end.
 Definition cls_mgr (pt : bytes) (r : mgr_result) : N :=
   match r with
   | MOk m => if bytes_eqb m pt then 0 else 7
   | MErr MErrLocked => 6
   | MErr MErrInvalidKeyType => 8
-  | MErr (MErrCrypto ErrMalformed) => 1
-  | MErr (MErrCrypto ErrDecryptFailed) => 2
-  | MErr (MErrCrypto _) => 3
+  | MErr (MErrCrypto _) => 1
   end.
+(** the harness reports 1 malformed, 2 decrypt-failed, 3 other error: one class *)
+Definition fold_err (c : N) : N := if (c =? 2) || (c =? 3) then 1 else c.
 
 (** DeriveKey classes: 0 accepted, 1 invalid password, 2 scrypt returned an
     error, 3 scrypt panicked (division by zero), 4 not run by the harness
@@ -41,11 +58,11 @@ Definition cls_derive (r : secret_key * option err) : N :=
   match snd r with
   | None => 0
   | Some ErrInvalidPassword => 1
-  | Some ErrKdf =>
-    let p := sk_params (fst r) in
-    if scrypt_class (pN p) (pR p) (pP p) =? 2 then 3 else 2
+  | Some ErrKdf => 2
   | Some _ => 9
   end.
+(** the harness reports 2 scrypt error, 3 scrypt panic: one class (no key) *)
+Definition fold_dk (c : N) : N := if c =? 3 then 2 else c.
 
 (** run-length encoding of a class sequence *)
 Fixpoint rle (l : list N) : list (N * N) :=
@@ -75,20 +92,47 @@ Definition bits : list N := [0; 1; 2; 3; 4; 5; 6; 7].
 
 (** A 32-byte checksum used as the hash of the correspondence instance (the
     88-byte layout needs a 32-byte digest): four evaluations of a polynomial
-    over the key modulo the prime 251, padded with fixed bytes; a change of
-    any single element of the key changes every evaluation point. *)
+    over the key modulo the prime 257, each written as two bytes, padded with
+    fixed bytes.  The coefficients are the bytes + 1 (1 .. 256, distinct
+    modulo 257 - modulo a prime below 256 the bytes 0 and 251 would coincide
+    and "passphrase ending in 0xfb" / "that byte dropped" (zero padding) would
+    get one digest); a change of any single byte of the key changes every
+    evaluation. *)
 Fixpoint poly_eval (x : N) (l : bytes) : N :=
   match l with
   | [] => 1
-  | b :: l' => ((b + 1) + x * poly_eval x l') mod 251
+  | b :: l' => ((b + 1) + x * poly_eval x l') mod 257
   end.
 Definition corr_hash (k : bytes) : bytes :=
-  map (fun x => poly_eval x (N.of_nat (length k) :: k)) [2; 3; 5; 7]
-  ++ map N.of_nat (seq 4 28).
-Definition c_new_secret_key := new_secret_key (toy_kdf corr_hash) corr_hash.
-Definition c_derive_key := derive_key (toy_kdf corr_hash) corr_hash.
+  flat_map (fun x => let v := poly_eval x (N.of_nat (length k) :: k) in [N.land v 255; N.shiftr v 8]) [2; 3; 5; 7]
+  ++ map N.of_nat (seq 8 24).
+(** The model at the regenerated facts.  [corr_pre]: when the source reader
+    says the passphrase is NOT handed to the kdf unchanged the function applied
+    is unknown; the identity stands in (the run then disagrees with the code
+    on the passphrases the unknown function identifies, which is reported). *)
+Definition corr_pre (pw : bytes) : bytes := pw.
+Definition c_new_secret_key := new_secret_key_c snacl_facts corr_pre (toy_kdf corr_hash) corr_hash.
+Definition c_derive_key := derive_key_c snacl_facts corr_pre (toy_kdf corr_hash) corr_hash.
+Definition c_decrypt := decrypt_c snacl_facts toy_open.
+Definition c_mgr_decrypt := mgr_decrypt_c snacl_facts toy_open.
+Definition c_mgr_pw_check := mgr_pw_check snacl_facts corr_pre (toy_kdf corr_hash) corr_hash.
+
+Fixpoint unrle (l : list (N * N)) : list N :=
+  match l with
+  | [] => []
+  | (x, c) :: l' => repeat x (N.to_nat c) ++ unrle l'
+  end.
+(** observed classes (run-length encoded) against the model's, errors folded *)
+Definition classes_agree (model : list N) (obs : list (N * N)) : bool :=
+  listN_eqb model (map fold_err (unrle obs)).
 
 (** * Cases *)
+
+(** lib/c17.py writes a byte string that shares a prefix of [p] and a suffix
+    of [q] bytes with a byte string [b] of the same case (a near-miss
+    passphrase, a key with one flipped bit) as [splice b p mid q]. *)
+Definition splice (b : bytes) (p : nat) (mid : bytes) (q : nat) : bytes :=
+  firstn p b ++ mid ++ skipn (length b - q) b.
 
 Record cipher_case := {
   cc_key : bytes; cc_nonce : bytes; cc_pt : bytes;
@@ -105,14 +149,14 @@ Definition trunc_classes (dec : bytes -> N) (c : bytes) (n : nat) : list N :=
 
 Definition cipher_ok (x : cipher_case) : bool :=
   let c := t_encrypt_with (cc_key x) (cc_nonce x) (cc_pt x) in
-  let dec := fun d => cls_decrypt (cc_pt x) (t_decrypt (cc_key x) d) in
+  let dec := fun d => cls_decrypt (cc_pt x) (c_decrypt (cc_key x) d) in
   (cc_ctlen x =? NonceSize + Overhead + length (cc_pt x))%nat
   && (length (cc_nonce x) =? NonceSize)%nat
   && (cc_ctlen x <=? length c)%nat
-  && (dec c =? cc_rt x)
-  && rle_eqb (rle (flip_classes dec c (cc_ctlen x))) (cc_flips x)
-  && rle_eqb (rle (trunc_classes dec c (cc_ctlen x))) (cc_truncs x)
-  && forallb (fun kc => cls_decrypt (cc_pt x) (t_decrypt (fst kc) c) =? snd kc) (cc_wrong x).
+  && (dec c =? fold_err (cc_rt x))
+  && classes_agree (flip_classes dec c (cc_ctlen x)) (cc_flips x)
+  && classes_agree (trunc_classes dec c (cc_ctlen x)) (cc_truncs x)
+  && forallb (fun kc => cls_decrypt (cc_pt x) (c_decrypt (fst kc) c) =? fold_err (snd kc)) (cc_wrong x).
 
 Record mgr_case := {
   mc_locked : bool; mc_kt : N; mc_nonce : bytes; mc_pt : bytes;
@@ -128,14 +172,14 @@ Definition corr_key_of (kt : N) : bytes :=
 
 Definition mgr_ok (x : mgr_case) : bool :=
   let c := t_encrypt_with (corr_key_of (mc_kt x)) (mc_nonce x) (mc_pt x) in
-  let dec := fun d => cls_mgr (mc_pt x) (t_mgr_decrypt (mc_locked x) (mc_kt x) corr_keys d) in
+  let dec := fun d => cls_mgr (mc_pt x) (c_mgr_decrypt (mc_locked x) (mc_kt x) corr_keys d) in
   (mc_ctlen x =? NonceSize + Overhead + length (mc_pt x))%nat
   && (length (mc_nonce x) =? NonceSize)%nat
   && (mc_ctlen x <=? length c)%nat
-  && (dec c =? mc_rt x)
-  && rle_eqb (rle (flip_classes dec c (mc_ctlen x))) (mc_flips x)
-  && rle_eqb (rle (trunc_classes dec c (mc_ctlen x))) (mc_truncs x)
-  && forallb (fun oc => cls_mgr (mc_pt x) (t_mgr_decrypt (mc_locked x) (fst oc) corr_keys c) =? snd oc)
+  && (dec c =? fold_err (mc_rt x))
+  && classes_agree (flip_classes dec c (mc_ctlen x)) (mc_flips x)
+  && classes_agree (trunc_classes dec c (mc_ctlen x)) (mc_truncs x)
+  && forallb (fun oc => cls_mgr (mc_pt x) (c_mgr_decrypt (mc_locked x) (fst oc) corr_keys c) =? fold_err (snd oc))
              (mc_cross x).
 
 Record pass_case := {
@@ -152,7 +196,7 @@ Definition params_eqb (a b : params) : bool :=
   && (pN a =? pN b)%Z && (pR a =? pR b)%Z && (pP a =? pP b)%Z.
 
 Definition cls_unmarshal (r : result params) : N :=
-  match r with Ok _ => 0 | Err ErrMalformed => 1 | Err _ => 3 end.
+  match r with Ok _ => 0 | Err _ => 1 end.
 
 Definition pass_ok (x : pass_case) : bool :=
   let p := {| salt := pc_salt x; digest := pc_digest x; pN := pc_n x; pR := pc_r x; pP := pc_p x |} in
@@ -161,7 +205,7 @@ Definition pass_ok (x : pass_case) : bool :=
   && match unmarshal_params (pc_marshalled x) with Ok p' => params_eqb p' p | Err _ => false end
   && forallb (fun lc =>
        cls_unmarshal (unmarshal_params
-         (firstn (fst lc) (pc_marshalled x ++ pc_marshalled x ++ pc_marshalled x))) =? snd lc)
+         (firstn (fst lc) (pc_marshalled x ++ pc_marshalled x ++ pc_marshalled x))) =? fold_err (snd lc))
        (pc_lens x)
   (* passphrase classes on the model's own key *)
   && match c_new_secret_key (pc_pw x) (Some (pc_salt x)) (pc_n x) (pc_r x) (pc_p x) with
@@ -171,12 +215,12 @@ Definition pass_ok (x : pass_case) : bool :=
        | Err _ => false
        | Ok sk0 =>
          Bool.eqb (forallb (fun b => b =? 0) (sk_key (sk_zero sk))) (pc_zero_ok x)
-         && (cls_derive (c_derive_key (sk_zero sk) (pc_pw x)) =? pc_exact x)
-         && (cls_derive (c_derive_key sk0 (pc_pw x)) =? pc_restart x)
+         && (cls_derive (c_derive_key (sk_zero sk) (pc_pw x)) =? fold_dk (pc_exact x))
+         && (cls_derive (c_derive_key sk0 (pc_pw x)) =? fold_dk (pc_restart x))
          && forallb (fun nc =>
               let '(pw', c1, c2) := nc in
-              (cls_derive (c_derive_key (sk_zero sk) pw') =? c1)
-              && (cls_derive (c_derive_key sk0 pw') =? c2)) (pc_near x)
+              (cls_derive (c_derive_key (sk_zero sk) pw') =? fold_dk c1)
+              && (cls_derive (c_derive_key sk0 pw') =? fold_dk c2)) (pc_near x)
        end
      end.
 
@@ -196,7 +240,7 @@ Definition params_ok (x : params_case) : bool :=
         | Ok sk' => cls_derive (c_derive_key sk' (qc_pw x))
         end) bits) (seq 0 ParamsSize) in
     (length (qc_flips x) =? 8 * ParamsSize)%nat
-    && forallb (fun mo => (snd mo =? 4) || (fst mo =? snd mo)) (combine model (qc_flips x))
+    && forallb (fun mo => (snd mo =? 4) || (fst mo =? fold_dk (snd mo))) (combine model (qc_flips x))
   end.
 
 (** NewSecretKey with parameters scrypt refuses: an error, no key. *)
@@ -207,9 +251,42 @@ Definition create_fail_ok (x : bytes * Z * Z * Z) : bool :=
   | _ => false
   end.
 
+(** waddrmgr's passphrase checks.  Operation: 0 Open, 1 Unlock (locked),
+    2 Unlock (unlocked), 3 ChangePassphrase public, 4 ChangePassphrase
+    private.  Classes: 0 accepted, 1 wrong passphrase, 3 another error.  The
+    manager's master keys are made from the case's passphrases with
+    FastScryptOptions (N = 16, r = 8, p = 1) and two fixed salts. *)
+Record mgrpass_case := {
+  mq_op : N; mq_pub : bytes; mq_priv : bytes;
+  mq_right : N;                      (* class with the right passphrase *)
+  mq_still : bool;                   (* the right passphrase works after all attempts *)
+  mq_near : list (bytes * N) }.      (* presented passphrase, class *)
+
+Definition op_of (n : N) : mgr_pw_op :=
+  if n =? 0 then OpOpen else if n =? 1 then OpUnlock else if n =? 2 then OpUnlockUnlocked
+  else if n =? 3 then OpChangePub else OpChangePriv.
+Definition cls_pw (r : mgr_pw_result) : N :=
+  match r with PwAccepted => 0 | PwWrong => 1 | PwCrypto => 3 end.
+
+Definition mgrpass_ok (x : mgrpass_case) : bool :=
+  match c_new_secret_key (mq_pub x) (Some (repeat 1 32)) 16 8 1,
+        c_new_secret_key (mq_priv x) (Some (repeat 2 32)) 16 8 1 with
+  | Ok skpub, Ok skpriv =>
+    let st := {| mp_pub := sk_zero skpub; mp_priv := sk_zero skpriv;
+                 mp_salt := repeat 3 32; mp_priv_pw := mq_priv x |} in
+    let op := op_of (mq_op x) in
+    let base := match op with OpOpen | OpChangePub => mq_pub x | _ => mq_priv x end in
+    (mq_op x <? 5)
+    && (cls_pw (c_mgr_pw_check op st base) =? mq_right x)
+    && mq_still x
+    && forallb (fun nc => cls_pw (c_mgr_pw_check op st (fst nc)) =? snd nc) (mq_near x)
+  | _, _ => false
+  end.
+
 Inductive case :=
 | CCipher (x : cipher_case)
 | CMgr (x : mgr_case)
+| CMgrPass (x : mgrpass_case)
 | CPass (x : pass_case)
 | CParams (x : params_case)
 | CCreateFail (x : bytes * Z * Z * Z)
@@ -219,6 +296,7 @@ Definition case_ok (c : case) : bool :=
   match c with
   | CCipher x => cipher_ok x
   | CMgr x => mgr_ok x
+  | CMgrPass x => mgrpass_ok x
   | CPass x => pass_ok x
   | CParams x => params_ok x
   | CCreateFail x => create_fail_ok x
